@@ -575,6 +575,11 @@ def stateGate (v : VSock) (hdr : Header) : Gate :=
       else .proceed v
     | .lastAck _ _ => .proceed v     -- unreachable (handled above)
 
+/-- `last_sent_seq_nr` after acknowledgement processing: whatever is acknowledged was sent, so it is never
+left below `snd_una - 1` (an RTO rewinds it; an ACK for the old copies must not leave it behind). -/
+def clampLastSent (lastSent sndUna : Nat) : Nat :=
+  if seqSub lastSent (wsub sndUna 1) < 0 then wsub sndUna 1 else lastSent
+
 /-- The rest of `process_incoming_message` for a packet that passed the table. `previouslySeenRemoteFin`
 is evaluated on the state *before* the table ran. -/
 def processAccepted (v : VSock) (c : Ctx) (msg : Msg) (previouslySeenRemoteFin : Bool) : R (VSock × Ctx × OnAckResult) := do
@@ -587,8 +592,7 @@ def processAccepted (v : VSock) (c : Ctx) (msg : Msg) (previouslySeenRemoteFin :
     | none => throw ⟨(.panic "remove_up_to_ack underflow"), v, c⟩
     | some r => pure r
   -- whatever is acknowledged was sent: `last_sent_seq_nr` is never left below `snd_una - 1`
-  let lastAcked := wsub segs1.sndUna 1
-  let lss := if seqSub v.lastSentSeqNr lastAcked < 0 then lastAcked else v.lastSentSeqNr
+  let lss := clampLastSent v.lastSentSeqNr segs1.sndUna
   let v := { v with segs := segs1, lastSentSeqNr := lss, ss := v.ss.onPayloadDelivered res.maxAckedPayloadSize }
   let c := { c with cc := c.cc.call s!"set_mss({v.ss.mss})" }
   let v := match v.recovery.isRecovering, res.newRtt with
@@ -782,7 +786,8 @@ def pollIteration (v : VSock) (c : Ctx) : VSock × Ctx × Step :=
   | .ok (v, c) =>
   if v.restart then (v, c, .continue_) else
   if v.transportPending then (v, c, .done .pending) else
-  -- flush
+  -- flush (the wake-up threshold follows the current segment size: `rx_window()` rounds with the same one)
+  let v := if v.ss.mss > 0 then { v with rx := { v.rx with maxIncomingPayload := v.ss.mss } } else v
   match v.rx.flush with
   | none => die v c (.panic "flush unwrap")
   | some (rx', _, ws) =>
